@@ -603,8 +603,65 @@ class Translator:
                 "guards": self.guards, "notes": self.notes}
 
 
+def iter_state():
+    """classes of the document model that are their own iterators: which fields an iteration stores, and which of
+    them the leading statements of __iter__ reset to a constant"""
+    rows = []
+    for rel in ("neuroml/hdf5/NetworkContainer.py", "neuroml/nml/nml.py"):
+        for cname, c in module(rel).classes.items():
+            meths = {n.name: n for n in c.body if isinstance(n, ast.FunctionDef)}
+            if "__next__" not in meths and "__iter__" not in meths:
+                continue
+
+            def stores(fn, skip=0):
+                out = []
+                for st in fn.body[skip:]:
+                    for n in ast.walk(st):
+                        if isinstance(n, ast.Attribute) and isinstance(n.ctx, (ast.Store, ast.Del)) and root_name(n) == "self":
+                            while isinstance(n.value, ast.Attribute):
+                                n = n.value
+                            if n.attr not in out:
+                                out.append(n.attr)
+                        if isinstance(n, ast.Call) and isinstance(n.func, ast.Attribute) and n.func.attr in MUTATORS \
+                                and root_name(n.func.value) == "self" and isinstance(n.func.value, ast.Attribute):
+                            a = n.func.value
+                            while isinstance(a.value, ast.Attribute):
+                                a = a.value
+                            if a.attr not in out:
+                                out.append(a.attr)
+                return out
+
+            reset, lead = [], 0
+            it = meths.get("__iter__")
+            if it is not None:
+                body = it.body
+                if body and isinstance(body[0], ast.Expr) and isinstance(body[0].value, ast.Constant):
+                    lead = 1  # docstring
+                for st in body[lead:]:
+                    if isinstance(st, ast.Assign) and len(st.targets) == 1 and isinstance(st.targets[0], ast.Attribute) \
+                            and isinstance(st.targets[0].value, ast.Name) and st.targets[0].value.id == "self" \
+                            and isinstance(st.value, ast.Constant):
+                        reset.append(st.targets[0].attr)
+                        lead += 1
+                    else:
+                        break
+            mod = []
+            for nm in ("__next__", "next"):
+                if nm in meths:
+                    mod += [f for f in stores(meths[nm]) if f not in mod]
+            if it is not None:
+                mod += [f for f in stores(it, lead) if f not in mod]
+            rows.append({"cls": cname, "file": rel, "modified": mod, "reset": reset})
+    return rows
+
+
 def main():
     out = {"entries": [], "untranslatable": [], "expected": [e[0] for e in ENTRIES]}
+    try:
+        out["iter_state"] = iter_state()
+    except (OSError, SyntaxError) as x:
+        out["iter_state"] = []
+        out["untranslatable"].append("neuroml/hdf5/NetworkContainer.py:iter_state:0:%s" % x)
     for e in ENTRIES:
         try:
             out["entries"].append(Translator(e).run())
